@@ -188,6 +188,7 @@ pub struct Probes {
     pub switches_between_emits_of_one_call: u64,
     pub calls_overlapping: u64,
     pub lock_blocked_threads_passed_over: u64,
+    pub clock_advances: u64,
 }
 
 pub struct RunOutput {
@@ -517,6 +518,22 @@ pub struct RunSpec<'a> {
     pub alloc_yield: bool,
     /// per-step watchdog; expiry is a harness error (an uninstrumented blocking primitive), never a violation
     pub watchdog: Duration,
+    /// non-zero: between calls the schedule moves the simulated clock forward (3 s before one call in
+    /// eight, a day before another one in eight - which ones follows from this seed, the caller and the
+    /// call index): within a call the clock is smooth, between two calls anything may have passed
+    pub clock_seed: u64,
+}
+
+/// Move the interposed clocks forward (no-op without the interposer).
+fn clock_advance(seconds: i64) -> bool {
+    let name = std::ffi::CString::new("simio_clock_advance").unwrap();
+    let sym = unsafe { libc::dlsym(libc::RTLD_DEFAULT, name.as_ptr()) };
+    if sym.is_null() {
+        return false;
+    }
+    let f: extern "C" fn(i64) = unsafe { std::mem::transmute(sym) };
+    f(seconds);
+    true
 }
 
 /// Execute one simulated run. `pool` serves the shared operands.
@@ -565,6 +582,7 @@ pub fn execute(spec: &RunSpec, chooser: Chooser, pool: Arc<dyn Pool + Send + Syn
         let shared2 = shared.clone();
         let pool2 = pool.clone();
         let alloc_yield = spec.alloc_yield;
+        let clock_seed = spec.clock_seed;
         let h = std::thread::Builder::new()
             .stack_size(spec.stack_kb[tid] * 1024)
             .name(format!("client-{}", tid))
@@ -582,6 +600,17 @@ pub fn execute(spec: &RunSpec, chooser: Chooser, pool: Arc<dyn Pool + Send + Syn
                         st.call_points[tid] = 0;
                     }
                     shared2.point(tid, "start");
+                    if clock_seed != 0 {
+                        let r = crate::prng::mix(clock_seed, &[0xC10C, tid as u64, i as u64]) % 8;
+                        let moved = match r {
+                            0 => clock_advance(3),
+                            1 => clock_advance(86_400),
+                            _ => false,
+                        };
+                        if moved {
+                            shared2.m.lock().unwrap().probes.clock_advances += 1;
+                        }
+                    }
                     let (start, stream_from) = {
                         let mut st = shared2.m.lock().unwrap();
                         st.in_call[tid] = true;
